@@ -2065,6 +2065,12 @@ func (app *App) findBestStreamFrom(node *mysql.Node, clusterState map[string]*no
 			}
 		}
 
+		if candidateState == nil {
+			// configured source is not a registered host: treat it as unhealthy and go on along the chain
+			loopDetector = append(loopDetector, streamFrom)
+			continue
+		}
+
 		hasReasonableLag := candidateState.IsMaster || (candidateState.SlaveState != nil &&
 			candidateState.SlaveState.ReplicationState == mysql.ReplicationRunning &&
 			candidateState.SlaveState.ReplicationLag != nil &&
